@@ -31,15 +31,17 @@ TraceInit == /\ tid \in 1..Len(Traces) /\ l = 1 /\ obs = NoObs
              /\ recs = [i \in 1..Len(Traces[tid].recs) |->
                           [kind |-> Traces[tid].recs[i].kind, ref |-> Traces[tid].recs[i].ref]]
              /\ InitDb(Range(Traces[tid].legacy))
-             /\ calls = 0 /\ pc = Down /\ pend = [d \in DBs |-> 0] /\ batches = 0
+             /\ calls = 0 /\ pc = Down /\ pend = [d \in DBs |-> 0] /\ batches = 0 /\ faults = 0
 
-Lib(a)      == a /\ UNCHANGED <<pc, calls, recs, legacy, pend, batches>>
+Lib(a)      == a /\ UNCHANGED <<pc, calls, recs, legacy, pend, batches, faults>>
 Step(a, p)  == IF Strict THEN p ELSE Lib(a)
 Skip        == UNCHANGED vars
 
 (* program layer: either PReadVersion has failed already, or the ALTER TABLE of the upgrade fails now *)
 StrictOpenError == \/ (pc = <<"failed">> /\ Skip)
                    \/ (\E d \in DBs : At(d, "alter") /\ T[d].cols = 2 /\ PAlter(d))
+
+StrictFail(d, rb) == (\E i \in Recs : DbOf(i) = d /\ PCommitFail(i, rb)) \/ PLeaveCommitFail(d, rb)
 
 Event(e) ==
   \/ /\ e.a = "Start"       /\ Step(DbStart, PStart)
@@ -56,7 +58,14 @@ Event(e) ==
   \/ /\ e.a = "Alter"       /\ Step(DbAlter(e.d), PAlter(e.d))
   \/ /\ e.a = "Update"      /\ Step(DbUpdate(e.d), PUpdate(e.d))
   \/ /\ e.a = "Call"        /\ e.r \in Recs /\ IF Strict THEN PCall(e.r) ELSE up /\ Skip
-  \/ /\ e.a = "Exec"        /\ e.r \in Recs /\ Step(DbExecute(e.r), PExecute(e.r))
+  (* e.v: which of the forms (byte strings) written under this primary key the statement carries; e.mode: the  *)
+  (* conflict clause of the INSERT                                                                              *)
+  \/ /\ e.a = "Exec"        /\ e.r \in Recs /\ Step(DbExecute(e.r, e.v, e.mode),
+                                                      Ins(e.r, "exec") /\ pc[4] = e.v /\ ModeOf(e.r) = e.mode
+                                                      /\ PExecute(e.r))
+  (* a statement raised an error of the database (not a constraint): nothing of its own happened; e.rb: sqlite  *)
+  (* has rolled the open transaction back                                                                       *)
+  \/ /\ e.a = "Fail"        /\ Step(DbFail(e.d, e.rb), StrictFail(e.d, e.rb))
   \/ /\ e.a = "Return"      /\ e.r \in Recs /\ Step(DbReturn(e.r), PReturn(e.r))
   \/ /\ e.a = "Enter"       /\ Step(DbEnter(e.d), PEnter(e.d))
   \/ /\ e.a = "Leave"       /\ Step(DbLeave(e.d, e.how), PLeave(e.d, e.how))
@@ -96,6 +105,11 @@ ObsNoPartial      == obs.seen => /\ \A d \in DBs : \A x \in obs[d] :
                                       /\ x.r \in Recs /\ x.r \in executed /\ DbOf(x.r) = d
                                       /\ x.dig \in Range(Tr.recs[x.r].digs)
                                  /\ obs.nid = Cardinality(ObsRows("id")) /\ obs.natt = Cardinality(ObsRows("att"))
+(* ... and unchanged: every row read back has exactly the bytes of the form the model holds for it - which for an *)
+(* acknowledged record is (AckedUnchanged) the form it had when it was acknowledged                               *)
+FormDig(r, v)     == IF v \in 1..Len(Tr.recs[r].digs) THEN Tr.recs[r].digs[v] ELSE "?"
+ObsUnchanged      == obs.seen => \A d \in DBs : \A x \in obs[d] :
+                                      (x.r \in Recs /\ x.r \in D[d].rows) => x.dig = FormDig(x.r, D[d].val[x.r])
 (* the pseudonym / wallet rebuilt from the files by the real reload path verifies *)
 ObsVerifies       == obs.seen => obs.verifies
 (* ----- the pseudonym the real reload path rebuilt (PseudonymManager.__init__), against the model's reload ----- *)
@@ -112,6 +126,8 @@ ObsRebuiltWhole   == obs.seen =>
                                                 /\ x.dig \in Range(Tr.recs[x.r].digs) /\ x.ok
                        /\ \A x \in obs.atts  : /\ x.r \in Recs /\ recs[x.r].kind = "attestation"
                                                 /\ x.dig \in Range(Tr.recs[x.r].digs) /\ x.ok
+                       /\ \A x \in obs.tree \cup obs.creds \cup obs.atts :
+                            (x.r \in Recs /\ x.r \in T["id"].rows) => x.dig = FormDig(x.r, T["id"].val[x.r])
                        /\ obs.ntree = Cardinality(ObsSet("tree")) /\ obs.ncreds = Cardinality(ObsSet("creds"))
                        /\ obs.natts = Cardinality(ObsSet("atts"))
 =============================================================================
